@@ -1,7 +1,7 @@
 import StatimeModel.Model.Port
 import StatimeModel.Spec.Formulas
 /-
-Lemmas about `extract_measurement` / `handle_time_measurement` (C09, C14).
+Lemmas about `extract_measurement` / `handle_time_measurement` (C08, C09, C14).
 -/
 namespace Statime
 
@@ -12,47 +12,111 @@ def PeerIdle (p : Port) : Prop :=
 theorem liftOv_ok {α} (x : Option α) (v : α) : liftOv x = .ok v ↔ x = some v := by
   cases x <;> simp [liftOv]
 
+theorem orOv_ok {α β : Type} (x : Option α) (f : α → R β) (r : β) (h : orOv x f = .ok r) :
+    ∃ a, x = some a ∧ f a = .ok r := by
+  cases x with
+  | none => simp [orOv] at h
+  | some a => exact ⟨a, rfl, h⟩
+
+theorem bind_some' {α β} (x : Option α) (f : α → Option β) (b : β) (h : x.bind f = some b) :
+    ∃ a, x = some a ∧ f a = some b := by
+  cases x with
+  | none => simp at h
+  | some a => exact ⟨a, rfl, by simpa using h⟩
+
+theorem map_some' {α β} (x : Option α) (f : α → β) (b : β) (h : x.map f = some b) :
+    ∃ a, x = some a ∧ f a = b := by
+  cases x with
+  | none => simp at h
+  | some a => exact ⟨a, rfl, by simpa using h⟩
+
+/-- the Sync measurement is the IEEE formula -/
+theorem syncMeasurement_spec (send recv : Nat) (asym : Int) (md : Option Int) (raw : Int) (m : Measurement)
+    (h : syncMeasurement send recv asym md = some (raw, m)) :
+    Spec.rawSync send recv asym = some raw ∧
+    ∃ off, m = { eventTime := recv, rawSync := some raw, offset := off } ∧
+      (∀ d, md = some d → durSub raw d = off) ∧ (md = none → off = none) := by
+  unfold syncMeasurement at h
+  obtain ⟨d0, h1, h⟩ := bind_some' _ _ _ h
+  obtain ⟨raw', h2, h⟩ := bind_some' _ _ _ h
+  have hs : Spec.rawSync send recv asym = some raw' := by
+    unfold Spec.rawSync; rw [h1, Option.bind_some, h2]
+  cases md with
+  | none =>
+    simp only [Option.some.injEq, Prod.mk.injEq] at h
+    obtain ⟨e1, e2⟩ := h
+    subst e1
+    exact ⟨hs, none, e2.symm, (by intro d e; cases e), fun _ => rfl⟩
+  | some d =>
+    simp only at h
+    obtain ⟨off, h3, h4⟩ := map_some' _ _ _ h
+    simp only [Prod.mk.injEq] at h4
+    obtain ⟨e1, e2⟩ := h4
+    subst e1
+    exact ⟨hs, some off, e2.symm, (by intro d' e; cases e; exact h3), (by intro e; cases e)⟩
+
+theorem delayMeasurement_spec (send recv : Nat) (asym : Int) (last : Option Int) (m : Measurement)
+    (h : delayMeasurement send recv asym last = some m) :
+    ∃ raw, Spec.rawDelay send recv asym = some raw ∧
+    ∃ dl, m = { eventTime := send, rawDelay := some raw, delay := dl } ∧
+      (∀ rs, last = some rs → Spec.meanDelay rs raw = dl) ∧ (last = none → dl = none) := by
+  unfold delayMeasurement at h
+  obtain ⟨d0, h1, h⟩ := bind_some' _ _ _ h
+  obtain ⟨raw, h2, h⟩ := bind_some' _ _ _ h
+  refine ⟨raw, by unfold Spec.rawDelay; rw [h1, Option.bind_some, h2], ?_⟩
+  cases last with
+  | none =>
+    simp only [Option.some.injEq] at h
+    exact ⟨none, h.symm, (by intro rs e; cases e), fun _ => rfl⟩
+  | some rs =>
+    simp only at h
+    obtain ⟨hv, h3, h4⟩ := map_some' _ _ _ h
+    exact ⟨some hv, h4.symm, (by intro rs' e; cases e; exact h3), (by intro e; cases e)⟩
+
+theorem peerMeasurement_spec (t1 t2 t3 t4 : Nat) (m : Measurement) (h : peerMeasurement t1 t2 t3 t4 = some m) :
+    ∃ v, Spec.peerDelay t1 t2 t3 t4 = some v ∧ m = { eventTime := t4, peerDelay := some v } := by
+  unfold peerMeasurement at h
+  obtain ⟨a, h1, h⟩ := bind_some' _ _ _ h
+  obtain ⟨b, h2, h⟩ := bind_some' _ _ _ h
+  obtain ⟨d, h3, h⟩ := bind_some' _ _ _ h
+  obtain ⟨v, h4, h5⟩ := map_some' _ _ _ h
+  refine ⟨v, ?_, h5.symm⟩
+  unfold Spec.peerDelay
+  rw [h1, Option.bind_some, h2, Option.bind_some, h3, Option.bind_some, h4]
+
+theorem extract_of_idle (p : Port) (hp : PeerIdle p) : p.extract = p.extractSlave := by
+  unfold Port.extract
+  split
+  · rename_i id r a b c d hpeer
+    exact absurd hpeer (hp id r a b c d)
+  · rfl
+
 /-- what `extract_measurement` does with a complete Sync pair -/
 theorem extract_sync (p p' : Port) (remote : PortId) (id send recv : Nat) (delay : DelaySt) (last : Option Int)
     (m : Option Measurement) (o : List Out)
     (hst : p.st = .slave remote (.measuring id (some send) (some recv)) delay last) (hp : PeerIdle p)
     (h : p.extract = .ok (p', m, o)) :
     ∃ raw, Spec.rawSync send recv p.cfg.delayAsymmetry = some raw ∧
-      o = [] ∧ p' = { p with st := .slave remote .empty delay (some raw) } ∧
+      o = [] ∧ p' = p.withSlave remote .empty delay (some raw) ∧
       ∃ off, m = some { eventTime := recv, rawSync := some raw, offset := off } ∧
-        (match p.meanDelay with | some md => durSub raw md = off | none => off = none) := by
-  unfold Port.extract at h
-  split at h
-  · rename_i id' r a b c d hpeer
-    exact absurd hpeer (hp id' r a b c d)
-  · rw [hst] at h
-    simp only [bind, Except.bind] at h
-    unfold Spec.rawSync
-    cases h1 : timeSub recv send with
-    | none => simp [h1, liftOv] at h
-    | some d0 =>
-      simp only [h1, liftOv] at h
-      cases h2 : durSub d0 p.cfg.delayAsymmetry with
-      | none => simp [h2] at h
-      | some raw =>
-        simp only [h2] at h
-        refine ⟨raw, by rw [Option.bind_some, h2], ?_⟩
-        cases hmd : p.meanDelay with
-        | none =>
-          simp only [hmd, pure, Except.pure, Except.ok.injEq, Prod.mk.injEq] at h
-          obtain ⟨e1, e2, e3⟩ := h
-          exact ⟨e3.symm, e1.symm, none, e2.symm, rfl⟩
-        | some md =>
-          simp only [hmd, Functor.map, Except.map] at h
-          cases h3 : durSub raw md with
-          | none => simp [h3, liftOv] at h
-          | some off =>
-            simp only [h3, liftOv, Except.ok.injEq, Prod.mk.injEq] at h
-            obtain ⟨e1, e2, e3⟩ := h
-            exact ⟨e3.symm, e1.symm, some off, e2.symm, h3⟩
+        (∀ md, p.meanDelay = some md → durSub raw md = off) ∧ (p.meanDelay = none → off = none) := by
+  rw [extract_of_idle p hp] at h
+  unfold Port.extractSlave at h
+  rw [hst] at h
+  simp only at h
+  obtain ⟨rm, h1, h2⟩ := orOv_ok _ _ _ h
+  obtain ⟨raw, mm⟩ := rm
+  obtain ⟨hs, off, hm, hoff⟩ := syncMeasurement_spec _ _ _ _ _ _ h1
+  simp only [Except.ok.injEq, Prod.mk.injEq] at h2
+  obtain ⟨e1, e2, e3⟩ := h2
+  exact ⟨raw, hs, e3.symm, e1.symm, off, by rw [← e2, hm], hoff⟩
 
 /-- the Sync pair is not complete -/
 def SyncSt.incomplete : SyncSt → Prop
+  | .measuring _ (some _) (some _) => False
+  | _ => True
+
+def DelaySt.incomplete : DelaySt → Prop
   | .measuring _ (some _) (some _) => False
   | _ => True
 
@@ -62,66 +126,34 @@ theorem extract_delay (p p' : Port) (remote : PortId) (sync : SyncSt) (id send r
     (hst : p.st = .slave remote sync (.measuring id (some send) (some recv)) last) (hs : sync.incomplete)
     (hp : PeerIdle p) (h : p.extract = .ok (p', m, o)) :
     ∃ raw, Spec.rawDelay send recv p.cfg.delayAsymmetry = some raw ∧
-      o = [] ∧ p' = { p with st := .slave remote sync .empty last } ∧
+      o = [] ∧ p' = p.withSlave remote sync .empty last ∧
       ∃ dl, m = some { eventTime := send, rawDelay := some raw, delay := dl } ∧
         (∀ rs, last = some rs → Spec.meanDelay rs raw = dl) ∧ (last = none → dl = none) := by
-  unfold Port.extract at h
+  rw [extract_of_idle p hp] at h
+  unfold Port.extractSlave at h
+  rw [hst] at h
+  simp only at h
   split at h
-  · rename_i id' r a b c d hpeer
-    exact absurd hpeer (hp id' r a b c d)
-  · rw [hst] at h
-    simp only at h
-    split at h
-    · exact absurd hs (by simp [SyncSt.incomplete])
-    · simp only [bind, Except.bind] at h
-      unfold Spec.rawDelay
-      cases h1 : timeSub send recv with
-      | none => simp [h1, liftOv] at h
-      | some d0 =>
-        simp only [h1, liftOv] at h
-        cases h2 : durSub d0 p.cfg.delayAsymmetry with
-        | none => simp [h2] at h
-        | some raw =>
-          simp only [h2] at h
-          refine ⟨raw, by rw [Option.bind_some, h2], ?_⟩
-          cases last with
-          | none =>
-            simp only [pure, Except.pure, Except.ok.injEq, Prod.mk.injEq] at h
-            obtain ⟨e1, e2, e3⟩ := h
-            exact ⟨e3.symm, e1.symm, none, e2.symm, (by intro rs hrs; cases hrs), fun _ => rfl⟩
-          | some rs =>
-            simp only at h
-            unfold Spec.meanDelay
-            cases h3 : durSub rs raw with
-            | none => simp [h3, liftOv] at h
-            | some x =>
-              simp only [h3, liftOv] at h
-              cases h4 : durHalf x with
-              | none => simp [h4] at h
-              | some hv =>
-                simp only [h4, pure, Except.pure, Except.ok.injEq, Prod.mk.injEq] at h
-                obtain ⟨e1, e2, e3⟩ := h
-                exact ⟨e3.symm, e1.symm, some hv, e2.symm, (by intro rs' hrs; cases hrs; rw [h3, Option.bind_some, h4]), (by intro hn; cases hn)⟩
-
-def DelaySt.incomplete : DelaySt → Prop
-  | .measuring _ (some _) (some _) => False
-  | _ => True
+  · exact absurd hs (by simp [SyncSt.incomplete])
+  · obtain ⟨mm, h1, h2⟩ := orOv_ok _ _ _ h
+    obtain ⟨raw, hr, dl, hm, hd⟩ := delayMeasurement_spec _ _ _ _ _ h1
+    simp only [Except.ok.injEq, Prod.mk.injEq] at h2
+    obtain ⟨e1, e2, e3⟩ := h2
+    exact ⟨raw, hr, e3.symm, e1.symm, dl, by rw [← e2, hm], hd⟩
 
 /-- nothing complete: no measurement, nothing changes -/
 theorem extract_none (p : Port) (remote : PortId) (sync : SyncSt) (delay : DelaySt) (last : Option Int)
     (hst : p.st = .slave remote sync delay last) (hs : sync.incomplete) (hd : delay.incomplete) (hp : PeerIdle p) :
     p.extract = .ok (p, none, []) := by
-  unfold Port.extract
+  rw [extract_of_idle p hp]
+  unfold Port.extractSlave
+  rw [hst]
+  simp only
   split
-  · rename_i id' r a b c d hpeer
-    exact absurd hpeer (hp id' r a b c d)
-  · rw [hst]
-    simp only
-    split
-    · exact absurd hs (by simp [SyncSt.incomplete])
-    · split
-      · exact absurd hd (by simp [DelaySt.incomplete])
-      · rfl
+  · exact absurd hs (by simp [SyncSt.incomplete])
+  · split
+    · exact absurd hd (by simp [DelaySt.incomplete])
+    · rfl
 
 /-- `handle_time_measurement` emits exactly the measurement `extract_measurement` returns -/
 theorem timeMeasurement_spec (p p' : Port) (o : List Out) (h : p.timeMeasurement = .ok (p', o)) :
@@ -142,5 +174,80 @@ theorem timeMeasurement_spec (p p' : Port) (o : List Out) (h : p.timeMeasurement
     | some mm =>
       simp only [Except.ok.injEq, Prod.mk.injEq] at h
       exact ⟨h.2.symm, h.1.symm⟩
+
+/-- roles: a sync/delay measurement only comes out of a Slave port, the peer half never makes a port
+Slave, and the only event is the demobilisation on recovery -/
+theorem extract_roles (p p' : Port) (m : Option Measurement) (o : List Out) (h : p.extract = .ok (p', m, o)) :
+    (∀ mm, m = some mm → (mm.rawSync.isSome ∨ mm.rawDelay.isSome) → p.st.isSlave = true) ∧
+    (p'.st.isSlave = true → p.st.isSlave = true) ∧ (∀ x ∈ o, x = Out.demobilize) ∧ p'.cfg = p.cfg ∧ p'.id = p.id ∧
+    p'.fml = p.fml := by
+  unfold Port.extract at h
+  split at h
+  · obtain ⟨mm, h1, h2⟩ := orOv_ok _ _ _ h
+    obtain ⟨v, _, hm⟩ := peerMeasurement_spec _ _ _ _ _ h1
+    split at h2
+    · simp only [Port.setState, Except.ok.injEq, Prod.mk.injEq] at h2
+      obtain ⟨e1, e2, e3⟩ := h2
+      subst e1 e2 e3
+      refine ⟨(by intro x e; cases e; rw [hm]; simp), (by simp [PState.isSlave]), ?_, rfl, rfl, rfl⟩
+      intro x hx; split at hx <;> simp_all
+    · simp only [Except.ok.injEq, Prod.mk.injEq] at h2
+      obtain ⟨e1, e2, e3⟩ := h2
+      subst e1 e2 e3
+      exact ⟨(by intro x e; cases e; rw [hm]; simp), fun hh => hh, (by simp), rfl, rfl, rfl⟩
+  · unfold Port.extractSlave at h
+    cases hst : p.st with
+    | slave remote sy dl last =>
+      have hsl : p.st.isSlave = true := by rw [hst]; rfl
+      rw [hst] at h
+      simp only at h
+      refine ⟨fun _ _ _ => by rfl, fun _ => by rfl, ?_⟩
+      split at h
+      · obtain ⟨rm, _, h2⟩ := orOv_ok _ _ _ h
+        simp only [Except.ok.injEq, Prod.mk.injEq] at h2
+        rw [← h2.2.2, ← h2.1]; exact ⟨(by simp), rfl, rfl, rfl⟩
+      · split at h
+        · obtain ⟨rm, _, h2⟩ := orOv_ok _ _ _ h
+          simp only [Except.ok.injEq, Prod.mk.injEq] at h2
+          rw [← h2.2.2, ← h2.1]; exact ⟨(by simp), rfl, rfl, rfl⟩
+        · simp only [Except.ok.injEq, Prod.mk.injEq] at h
+          rw [← h.2.2, ← h.1]; exact ⟨(by simp), rfl, rfl, rfl⟩
+    | faulty | listening | master | passive =>
+      rw [hst] at h
+      simp only [Except.ok.injEq, Prod.mk.injEq] at h
+      obtain ⟨e1, e2, e3⟩ := h
+      subst e1 e2 e3
+      refine ⟨(by intro mm e; cases e), ?_, (by simp), rfl, rfl, rfl⟩
+      rw [hst]; simp [PState.isSlave]
+
+theorem extract_noNewMaster (p p' : Port) (m : Option Measurement) (o : List Out) (h : p.extract = .ok (p', m, o)) :
+    p'.st = .master → p.st = .master := by
+  unfold Port.extract at h
+  split at h
+  · obtain ⟨mm, h1, h2⟩ := orOv_ok _ _ _ h
+    split at h2
+    · simp only [Port.setState, Except.ok.injEq, Prod.mk.injEq] at h2
+      rw [← h2.1]; intro hh; cases hh
+    · simp only [Except.ok.injEq, Prod.mk.injEq] at h2
+      rw [← h2.1]; exact fun hh => hh
+  · unfold Port.extractSlave at h
+    cases hst : p.st with
+    | slave remote sy dl last =>
+      rw [hst] at h
+      simp only at h
+      split at h
+      · obtain ⟨rm, _, h2⟩ := orOv_ok _ _ _ h
+        simp only [Except.ok.injEq, Prod.mk.injEq] at h2
+        rw [← h2.1]; intro hh; cases hh
+      · split at h
+        · obtain ⟨rm, _, h2⟩ := orOv_ok _ _ _ h
+          simp only [Except.ok.injEq, Prod.mk.injEq] at h2
+          rw [← h2.1]; intro hh; cases hh
+        · simp only [Except.ok.injEq, Prod.mk.injEq] at h
+          rw [← h.1, hst]; exact fun hh => hh
+    | faulty | listening | master | passive =>
+      rw [hst] at h
+      simp only [Except.ok.injEq, Prod.mk.injEq] at h
+      rw [← h.1, hst]; exact fun hh => hh
 
 end Statime
